@@ -50,6 +50,8 @@ AT_LIMIT = {
     "cqs-fluent.ts": ("typescript", _CQS_FLUENT, None),
     "cqs-fluent.py": ("python", _CQS_FLUENT_PY, None),
     "unwrap-with-tests.rs": ("rust", _RS_TESTS, None),
+    "tokio-net.rs": ("rust", "use tokio::net::TcpStream;\n\nasync fn connect() {\n    let s = TcpStream::connect(\"127.0.0.1:80\").await;\n    drop(s);\n}\n\n"
+                             "async fn nap() {\n    std::thread::sleep(std::time::Duration::from_secs(1));\n}\n", None),
     "srp-at-loc-limit.py": ("python", _SRP_PY, {"srp": {"max_loc": 7, "max_methods": 3}}),
     "srp-at-loc-limit.ts": ("typescript", _SRP_TS, {"srp": {"max_loc": 11, "max_methods": 3}}),
     "srp-at-loc-limit.rs": ("rust", _SRP_RS, {"srp": {"max_loc": 14, "max_methods": 3}}),
@@ -133,12 +135,12 @@ def h_edits(ctx):
     lines = text.rstrip("\n").split("\n")
     n = len(lines)
     cm = "#" if lang == "python" else "//"
-    edit = ctx.pick("edit", ("insert-blank", "insert-indented-blank", "insert-comment", "insert-non-ascii-comment", "trailing-whitespace", "reindent-x2", "crlf", "bom",
+    edit = ctx.pick("edit", ("insert-blank", "insert-indented-blank", "insert-comment", "insert-non-ascii-comment", "insert-comment-with-old-code", "trailing-whitespace", "reindent-x2", "crlf", "bom",
                              "append-code", "two-edits", "rename-locals"))
     base = _lint(files, config)
     shift, with_col = None, True
     new = None
-    if edit in ("insert-blank", "insert-indented-blank", "insert-comment", "insert-non-ascii-comment", "two-edits"):
+    if edit in ("insert-blank", "insert-indented-blank", "insert-comment", "insert-non-ascii-comment", "insert-comment-with-old-code", "two-edits"):
         q = ctx.pick("insert_before_line", tuple(range(1, n + 2)))
         if tname == "dup" and 2 < q <= n:
             ctx.assume(False)      # a line inserted inside a reported duplicate block changes the block itself
@@ -148,6 +150,11 @@ def h_edits(ctx):
         ins = "" if edit == "insert-blank" else (ind + "  " if edit == "insert-indented-blank" else ind + cm + " an unrelated remark")
         if edit == "insert-non-ascii-comment":      # multi-byte text: byte offsets and character offsets part ways below it
             ins = ind + cm + " \u0e04\u0e48\u0e32\u0e04\u0e07\u0e17\u0e35\u0e48\u0e2a\u0e33\u0e2b\u0e23\u0e31\u0e1a\u0e01\u0e32\u0e23\u0e25\u0e2d\u0e07\u0e43\u0e2b\u0e21\u0e48 \u5e38\u91cf\u5b9a\u7fa9 \u043a\u043e\u043d\u0441\u0442\u0430\u043d\u0442\u044b"
+        if edit == "insert-comment-with-old-code":     # commented-out code is still a comment
+            ins = ind + cm + " old: " + {"python": "print(3975); import re as rx; value = compute(4409)",
+                                           "typescript": "console.log(3975); const limit = 4409; import fs from 'fs';",
+                                           "javascript": "console.log(3975); const limit = 4409; var fs = require('fs');",
+                                           "rust": "use std::net::TcpStream; let v = x.unwrap(); let w = y.clone().clone(); std::thread::sleep(d);"}[lang]
         new_lines = lines[:q - 1] + [ins] + lines[q - 1:]
         delta = 1
         if edit == "two-edits":
